@@ -546,6 +546,28 @@ def weave_const(src, name, container='-'):
     raise Lost('const not found: %s in %s' % (name, src.path))
 
 
+def stub_lemmas(text):
+    src = Source('<lemmas>', text)
+    out = []
+    cur = 0
+    for st, en in src.finditer_code(r'(?<![A-Za-z0-9_])((pub\s+)?(broadcast\s+)?proof\s+fn\s+[A-Za-z0-9_]+)'):
+        if st < cur:
+            continue
+        o = src.header_end(en, len(text))
+        if text[o] != '{':
+            continue
+        c = src.match_close(o)
+        # strip a `decreases` clause? (kept: harmless for external_body)
+        attr_start = st
+        out.append(text[cur:attr_start])
+        out.append('#[verifier::external_body] /* lemma proved in its home unit */ ')
+        out.append(text[st:o])
+        out.append('{ unimplemented!() }')
+        cur = c + 1
+    out.append(text[cur:])
+    return ''.join(out)
+
+
 DIRECTIVE = re.compile(r'^\s*//@(\w+)\s*(.*)$')
 
 
@@ -597,20 +619,43 @@ class Unit:
         lines = open(path).read().split('\n')
         i = 0
         skipping = False
+        plain = []
+
+        def flush():
+            if plain:
+                txt = '\n'.join(plain)
+                if mode == 'stub':
+                    # lemmas (free or law proofs inside impl blocks) are proved in the home unit only
+                    txt = stub_lemmas(txt)
+                self.emit(txt)
+                del plain[:]
         while i < len(lines):
             ln = lines[i]
             m = DIRECTIVE.match(ln)
             if not m:
                 if not skipping:
-                    self.emit(ln)
+                    plain.append(ln)
                 i += 1
                 continue
+            flush()
             d, arg = m.group(1), m.group(2).strip()
             i += 1
             if d == 'end':
                 skipping = False
                 continue
             if skipping:
+                continue
+            if d == 'lemmas':
+                # a block of proof lemmas: verified in the home unit (verify mode); where the template is included as
+                # `stub`, each lemma keeps its statement and loses its body (it is proved in the home unit)
+                blk = []
+                while i < len(lines) and not (DIRECTIVE.match(lines[i]) and DIRECTIVE.match(lines[i]).group(1) == 'end'):
+                    blk.append(lines[i]); i += 1
+                i += 1
+                text = '\n'.join(blk)
+                if mode == 'stub':
+                    text = stub_lemmas(text)
+                self.emit(text)
                 continue
             if d == 'verify_only':
                 skipping = (mode != 'verify')
@@ -682,6 +727,7 @@ class Unit:
                 self.fns.append(rec)
             else:
                 raise Undecided('unknown directive //@%s in %s' % (d, template))
+        flush()
         return self
 
     def text(self):
